@@ -64,6 +64,39 @@
 (* ReplayedLikeBadSig), and a genuine STH is judged by the stored STH      *)
 (* alone whatever was refused before (decision functions do not read       *)
 (* `offered`).                                                             *)
+(*                                                                         *)
+(* Header of the signature.  tree_head_signature is a DigitallySigned      *)
+(* (RFC 5246 4.7): one byte naming a hash algorithm, one byte naming a     *)
+(* signature algorithm, then the signature bytes.  Both bytes come from    *)
+(* the feeder.  RFC 6962 2.1.4: a log signs with ECDSA (P-256) or RSA over *)
+(* SHA-256, so "a valid signature of the configured log" has the header    *)
+(* StdHdr(l) = (sha256, the algorithm of l's key) - field `hdr` of a       *)
+(* candidate - over bytes that l's key made over the SHA-256 digest of the *)
+(* candidate's content - field `form` = "signed".  Every other candidate   *)
+(* of the header family HdrSTHs is a bad signature:                        *)
+(*   form "signed"   the log's genuine SHA-256 signature bytes under a     *)
+(*                   header naming another hash (none, md5 .. sha512, the  *)
+(*                   code points 7, 8 and an unassigned one) and / or      *)
+(*                   another signature algorithm (anonymous, rsa, dsa,     *)
+(*                   ecdsa, 7, 8, unassigned) than the key's;              *)
+(*   form "garbage"  bytes nobody's key made (well-formed for the key type *)
+(*                   or not), under every header, the exact one included;  *)
+(*   form "rawkey"   bytes the log's own key made over the UNHASHED        *)
+(*                   content, under a header whose hash byte names no hash *)
+(*                   function (NoHash) - named clause NoHashNoSignature:   *)
+(*                   such a header never verifies, whoever made the bytes; *)
+(*   form "crafted"  bytes computed from the log's PUBLIC key alone that   *)
+(*                   an ECDSA verifier accepts when it takes the leading   *)
+(*                   bytes of the unhashed content for the digest          *)
+(*                   ((r, s) chosen first, the digest follows from them;   *)
+(*                   the content - family "X", a tree nobody has - is      *)
+(*                   dictated by that digest), under every header.         *)
+(* The law (ExactHeaderOnly, OtherHeaderRefused, OtherHeaderLikeBadSig):   *)
+(* only STHs with the exact header StdHdr(l) over form "signed" are ever   *)
+(* stored or cosigned for l; every other member of the family is answered  *)
+(* like the same content under the signature of a key that is no log's.    *)
+(* Left open (not in the family): bytes the log's own key made over        *)
+(* another REAL hash (md5 .. sha512) under the header naming that hash.    *)
 (***************************************************************************)
 EXTENDS Naturals, Sequences, FiniteSets, TLC
 
@@ -75,7 +108,11 @@ CONSTANTS
   Proofs,      \* proof labels, "correct" is one of them
   Aliases,     \* spellings of a log id other than the configured one ("canon")
   DonorIdfs,   \* log_id field states of the STHs whose signature bytes are replayed
-  ForgedIdfs   \* log_id field states of the STHs carrying a replayed signature
+  ForgedIdfs,  \* log_id field states of the STHs carrying a replayed signature
+  RSALogs,     \* the logs (known or not) whose key is an RSA key; every other key is an ECDSA P-256 key
+  HashCodes,   \* labels of the hash algorithm byte of a signature header ("sha256" among them)
+  SigAlgs,     \* labels of the signature algorithm byte ("ecdsa", "rsa" among them)
+  HdrIdfs      \* log_id field states of the candidates of the header family
 
 None == [k |-> "none"]
 
@@ -88,6 +125,16 @@ Leaf(f, i) == IF f = "F" /\ i > ForkAt THEN <<"f", i>> ELSE <<"h", i>>
 Leaves(f, n) == [i \in 1..n |-> Leaf(f, i)]
 IsPrefix(s, t) == Len(s) <= Len(t) /\ \A i \in 1..Len(s) : s[i] = t[i]
 
+(* ---------- signature headers ---------- *)
+KeyAlg(s) == IF s \in RSALogs THEN "rsa" ELSE "ecdsa"      \* "bad" (a key that is no log's) is an ECDSA key
+Headers == [hash : HashCodes, alg : SigAlgs]
+\* the one header a valid signature of the log whose key is s's carries (RFC 6962 2.1.4)
+StdHdr(s) == [hash |-> "sha256", alg |-> KeyAlg(s)]
+\* hash bytes that name no hash function: none(0) of RFC 5246, and code points that RFC 5246 leaves unassigned
+\* (7; 8 = "intrinsic" of RFC 8422, the scheme hashes by itself; "hx" = some other unassigned one)
+NoHash == {"none", "h7", "h8", "hx"} \cap HashCodes
+SigForms == {"signed", "garbage", "rawkey", "crafted"}
+
 (* ---------- candidates ---------- *)
 Signers == Logs \cup {"bad"}          \* "bad": signature does not verify under any log key
 IdFields == {"absent", "right", "wrong"}
@@ -97,23 +144,37 @@ Normal(x) == ~(x.fam = "F" /\ x.size <= ForkAt)
 \* what a log signature covers: tree size, root, timestamp
 ContentOf(x) == [fam |-> x.fam, size |-> x.size, ts |-> x.ts]
 \* plain candidates: the signature bytes were made (by `signer`) over the candidate's own content
-PlainSTHs == {c \in [k : {"sth"}, fam : Fams, size : 0..MaxSize, ts : 1..2, signer : Signers, idf : IdFields, over : {None}] :
-                Normal(c)}
+\* (header: the exact one for the signer's key; bytes: made by the signer's key over the SHA-256 digest)
+Mk(x, s, i, o, h, fo) == [k |-> "sth", fam |-> x.fam, size |-> x.size, ts |-> x.ts, signer |-> s, idf |-> i, over |-> o,
+                          hdr |-> h, form |-> fo]
+Contents == {x \in [fam : Fams, size : 0..MaxSize, ts : 1..2] : Normal(x)}
+PlainSTHs == {Mk(x, s, i, None, StdHdr(s), "signed") : x \in Contents, s \in Signers, i \in IdFields}
 \* replayed signatures: the bytes are those of the donor `over`, a genuine STH of log `signer` with another content
 Donors == {d \in [k : {"sig"}, fam : Fams, size : 0..MaxSize, ts : 1..2, idf : DonorIdfs] : Normal(d)}
-ReplaySTHs == {c \in [k : {"sth"}, fam : Fams, size : 0..MaxSize, ts : 1..2, signer : Logs, idf : ForgedIdfs, over : Donors] :
-                 Normal(c) /\ ContentOf(c) # ContentOf(c.over)}
+ReplaySTHs == {c \in {Mk(x, s, i, d, StdHdr(s), "signed") : x \in Contents, s \in Logs, i \in ForgedIdfs, d \in Donors} :
+                 ContentOf(c) # ContentOf(c.over)}
+\* the header family: what log s's key (its private half for "signed" / "rawkey", its public half for "crafted", no
+\* key for "garbage") can be made to yield under headers other than the exact one
+HdrContents == {x \in Contents : x.ts = 1}
+CraftedContent == [fam |-> "X", size |-> MaxSize + 1, ts |-> 1]      \* dictated by the crafted digest: nobody's tree
+HdrOf(s) == UNION {
+  {Mk(x, s, i, None, h, "signed") : x \in HdrContents, i \in HdrIdfs, h \in Headers \ {StdHdr(s)}},
+  {Mk(x, s, i, None, h, "garbage") : x \in HdrContents, i \in HdrIdfs, h \in Headers},
+  {Mk(x, s, i, None, h, "rawkey") : x \in HdrContents, i \in HdrIdfs, h \in {g \in Headers : g.hash \in NoHash}},
+  IF KeyAlg(s) = "ecdsa" THEN {Mk(CraftedContent, s, i, None, h, "crafted") : i \in HdrIdfs, h \in Headers} ELSE {} }
+HdrSTHs == UNION {HdrOf(s) : s \in Logs}
 PlainCands == PlainSTHs \cup {Garbage}
-Cands == PlainCands \cup ReplaySTHs
+Cands == PlainCands \cup ReplaySTHs \cup HdrSTHs
+\* a member of the header family: anything but (the exact header of its signer's key over that key's SHA-256 signature)
+IsHdr(c) == c \notin {Garbage, None} /\ (c.form # "signed" \/ c.hdr # StdHdr(c.signer))
 IsReplay(c) == c \notin {Garbage, None} /\ c.over # None
 \* the genuine STH whose signature bytes a replay carries
-DonorCand(c) == [k |-> "sth", fam |-> c.over.fam, size |-> c.over.size, ts |-> c.over.ts, signer |-> c.signer,
-                 idf |-> c.over.idf, over |-> None]
+DonorCand(c) == Mk(c.over, c.signer, c.over.idf, None, StdHdr(c.signer), "signed")
 AsDonor(g) == [k |-> "sig", fam |-> g.fam, size |-> g.size, ts |-> g.ts, idf |-> g.idf]
 \* content x under the signature bytes of the genuine STH g
-Forge(x, g, idf) == [k |-> "sth", fam |-> x.fam, size |-> x.size, ts |-> x.ts, signer |-> g.signer, idf |-> idf, over |-> AsDonor(g)]
+Forge(x, g, idf) == Mk(x, g.signer, idf, AsDonor(g), StdHdr(g.signer), "signed")
 \* the same content under a signature of a key that is no log's
-BadTwin(c) == [c EXCEPT !.signer = "bad", !.over = None]
+BadTwin(c) == [c EXCEPT !.signer = "bad", !.over = None, !.hdr = StdHdr("bad"), !.form = "signed"]
 \* genuine STHs of log l: the signature verifies under l's key (whatever the log_id field says)
 Genuine(l) == {c \in PlainSTHs : c.signer = l}
 
@@ -149,6 +210,8 @@ ParsesFor(c, l) == /\ c # Garbage
                    /\ c.idf # "wrong"
                    /\ c.signer = l
                    /\ c.over = None          \* signature bytes made over another content never verify
+                   /\ c.form = "signed"      \* ... nor do bytes that l's key did not make over the SHA-256 digest
+                   /\ c.hdr = StdHdr(l)      \* ... nor anything under another header than (sha256, the key's algorithm)
 
 (* ---------- state ---------- *)
 VARIABLES
@@ -201,7 +264,7 @@ Step(op, l, sp, c, pf, f, reply) ==
    reply |-> reply, pre |-> held, post |-> held']
 
 \* the history of genuine signatures the witness has met
-IsGenuine(c, l) == c # Garbage /\ c.over = None /\ c.signer = l
+IsGenuine(c, l) == c # Garbage /\ c.over = None /\ c.signer = l /\ c.form = "signed" /\ c.hdr = StdHdr(l)
 Offer(l, c) == IF l \in Logs /\ IsGenuine(c, l) THEN [offered EXCEPT ![l] = @ \cup {c}] ELSE offered
 
 Update(l, sp, c, pf, f) ==
@@ -247,8 +310,17 @@ NextUpdate == \E l \in AllLogs, sp \in Spellings, c \in PlainCands, pf \in Proof
 \* database (the signature is judged before the proof and the database are looked at)
 NextReplay == \/ \E l \in Logs, pf \in Proofs, f \in Faults : \E c \in {x \in ReplaySTHs : x.signer = l} : Update(l, "canon", c, pf, f)
               \/ \E l \in AllLogs, sp \in Spellings, c \in ReplaySTHs : Update(l, sp, c, "correct", "none")
+\* the header family: every member to every log under the configured spelling with the correct proof on a healthy
+\* database (the signature is judged before the proof and the database are looked at); the ones over the largest honest
+\* tree and the crafted ones whose header has the key's algorithm byte or the sha256 byte (MainHdrs) to every log under
+\* every other spelling, and to the log whose key they were made from with every proof x every fault
+FullHdrs(l) == {c \in HdrOf(l) : c.fam = "X" \/ (c.fam = "H" /\ c.size = MaxSize)}
+MainHdrs(l) == {c \in FullHdrs(l) : c.hdr.alg = KeyAlg(l) \/ c.hdr.hash = "sha256"}
+NextHdr == \/ \E l \in AllLogs, c \in HdrSTHs : Update(l, "canon", c, "correct", "none")
+           \/ \E l \in AllLogs, sp \in Aliases, s \in Logs : \E c \in MainHdrs(s) : Update(l, sp, c, "correct", "none")
+           \/ \E l \in Logs, pf \in Proofs, f \in Faults : \E c \in MainHdrs(l) : Update(l, "canon", c, pf, f)
 NextRead == (\E l \in AllLogs, sp \in Spellings, f \in ReadOpFaults : GetSTH(l, sp, f)) \/ \E f \in ReadOpFaults : GetLogs(f)
-Next == NextUpdate \/ NextReplay \/ NextRead
+Next == NextUpdate \/ NextReplay \/ NextHdr \/ NextRead
 
 \* the fault-free, configured-spelling fragment (the whole request space of the first version of this spec)
 PlainNext == \/ \E l \in AllLogs, c \in PlainCands, pf \in Proofs : Update(l, "canon", c, pf, "none")
@@ -334,6 +406,31 @@ ReplayedSigRefused == [][(last'.op = "Update" /\ last'.replay # "none") =>
 \* ... exactly like the same content under the signature of a key that is no log's
 ReplayedLikeBadSig == [][(last'.op = "Update" /\ last'.replay # "none") =>
                             last'.reply = UpdateResult(last'.log, last'.sp, BadTwin(last'.cand), last'.pf, last'.fault).reply]_vars
+
+(* ---------- header of the signature ---------- *)
+\* the law: whatever is stored or cosigned for l carries the exact header (sha256, the algorithm of l's key) over
+\* bytes l's key made over the SHA-256 digest of the content
+ExactHdr(c, l) == c.hdr = StdHdr(l) /\ c.form = "signed" /\ c.signer = l
+ExactHeaderOnly == \A l \in Logs : /\ (held[l] # None => ExactHdr(held[l], l))
+                                    /\ (cos[l] # None => ExactHdr(cos[l], l))
+
+\* every member of the header family is refused whatever the witness holds: nothing stored, nothing cosigned, not
+\* counted as an STH of the log, and - when the log is addressed by its configured name - the plain error that
+\* answers any other bad signature (not the held STH: the signature is judged before the sizes are compared)
+OtherHeaderRefused == [][(last'.op = "Update" /\ IsHdr(last'.cand)) =>
+                            /\ held' = held /\ cos' = cos /\ offered' = offered
+                            /\ last'.reply.kind \notin {"cosigned", "raw"}
+                            /\ (Configured(last'.log, last'.sp) => last'.reply = Reply("Other", "none", None))]_vars
+
+\* ... exactly like the same content under the signature of a key that is no log's
+OtherHeaderLikeBadSig == [][(last'.op = "Update" /\ IsHdr(last'.cand)) =>
+                               last'.reply = UpdateResult(last'.log, last'.sp, BadTwin(last'.cand), last'.pf, last'.fault).reply]_vars
+
+\* named clause NoHashNoSignature: a header whose hash byte names no hash function never verifies - not even over
+\* bytes that the log's own key made over the unhashed content
+NoHashNoSignature == [][(last'.op = "Update" /\ last'.cand \notin {Garbage, None} /\ last'.cand.hdr.hash \in NoHash) =>
+                           /\ held' = held /\ cos' = cos
+                           /\ last'.reply.kind \notin {"cosigned", "raw"}]_vars
 
 \* an update of one log never touches another log's row
 Isolated == [][\A l \in Logs : (last'.op # "Update" \/ last'.log # l) => held'[l] = held[l]]_vars
